@@ -1,6 +1,9 @@
 //! Fixed-capacity association list with the subset of the std HashMap/HashSet API used by teos.
 //! Semantics = finite map / finite set of at most CAP entries; exceeding CAP is outside the stated bound
 //! (the path is discarded with kani::assume(false)).
+#[cfg(not(kani))]
+#[allow(unused_imports)]
+use crate::verif_kani_shim as kani;
 use std::borrow::Borrow;
 use std::fmt;
 
